@@ -102,6 +102,7 @@ class FunTranslator:
         self.locals = []
         self.mutated = set()
         self.tmp = 0
+        self.uses_oracle = False
 
     # ---- names
     def local(self, name, node):
@@ -204,6 +205,8 @@ class FunTranslator:
                 _bad(e, f"call of {f.id}")
             if isinstance(f, ast.Attribute) and not e.args:
                 return f"(EField {self.expr(f.value)} {self.getter_cands(f.attr, e, True)})"
+            if isinstance(f, ast.Attribute) and f.attr == "index" and len(e.args) == 1:
+                return f"(EIndexOf {self.expr(f.value)} {self.expr(e.args[0])})"
             _bad(e, "call")
         _bad(e, f"expression {type(e).__name__}")
 
@@ -218,6 +221,9 @@ class FunTranslator:
         _bad(t, f"{what}: not a name or name[index]")
 
     def mark_mutated(self, name, node):
+        if name in self.alias_names or name in self.alias_sources:
+            _bad(node, f"{name} is mutated but may share its value with another name (it is bound by a for loop or "
+                       f"from a name/subscript/attribute, or another name is bound from it)")
         if name in self.params:
             self.mutated.add(self.params.index(name))
         for it in self.iterating:
@@ -239,6 +245,18 @@ class FunTranslator:
                 wbs.append("None")
         d = f"(Some {cstr(dst)})" if dst else "None"
         return f"(SCall {d} {cstr(fi.name)} {clist(self.expr(a) for a in call.args)} {clist(wbs)})"
+
+    @staticmethod
+    def oracle_bound(e):
+        """np.random.randint(<int literal>) -> the literal, else None"""
+        if (isinstance(e, ast.Call) and not e.keywords and len(e.args) == 1
+                and isinstance(e.args[0], ast.Constant) and isinstance(e.args[0].value, int)
+                and not isinstance(e.args[0].value, bool)
+                and isinstance(e.func, ast.Attribute) and e.func.attr == "randint"
+                and isinstance(e.func.value, ast.Attribute) and e.func.value.attr == "random"
+                and isinstance(e.func.value.value, ast.Name) and e.func.value.value.id == "np"):
+            return e.args[0].value
+        return None
 
     def is_fun_call(self, e):
         return isinstance(e, ast.Call) and isinstance(e.func, ast.Name) and e.func.id in self.funs \
@@ -268,10 +286,12 @@ class FunTranslator:
                 _bad(s, "multiple assignment targets")
             t = s.targets[0]
             if isinstance(t, ast.Name):
-                if isinstance(s.value, ast.Name):
-                    _bad(s, "name = name (possible aliasing of a mutable value)")
                 if self.is_fun_call(s.value):
                     return self.call_stmt(t.id, s.value)
+                ob = self.oracle_bound(s.value)
+                if ob is not None:
+                    self.uses_oracle = True
+                    return f"(SOracle {cstr(t.id)} {cz(ob)})"
                 return f"(SAssign {cstr(t.id)} {self.expr(s.value)})"
             if isinstance(t, ast.Subscript) and isinstance(t.value, ast.Name) and not isinstance(t.slice, ast.Slice):
                 self.name(t.value)
@@ -291,6 +311,11 @@ class FunTranslator:
                 lv, nm = self.lval(v.func.value, "append target")
                 self.mark_mutated(nm, s)
                 return f"(SAppend {lv} {self.expr(v.args[0])})"
+            if isinstance(v, ast.Call) and isinstance(v.func, ast.Attribute) and v.func.attr == "extend" \
+                    and len(v.args) == 1 and not v.keywords:
+                lv, nm = self.lval(v.func.value, "extend target")
+                self.mark_mutated(nm, s)
+                return f"(SExtend {lv} {self.expr(v.args[0])})"
             if self.is_fun_call(v):
                 return self.call_stmt(None, v)
             return f"(SExpr {self.expr(v)})"
@@ -352,14 +377,69 @@ class FunTranslator:
                 names.append(t)
         return names
 
+    def collect_aliases(self):
+        al, src = set(), set()
+
+        def root(e):
+            while isinstance(e, (ast.Subscript, ast.Attribute)):
+                e = e.value
+            return e.id if isinstance(e, ast.Name) else None
+
+        for n in ast.walk(self.node):
+            if isinstance(n, ast.For) and isinstance(n.target, ast.Name):
+                al.add(n.target.id)
+            elif isinstance(n, ast.Assign) and len(n.targets) == 1 and isinstance(n.targets[0], ast.Name) \
+                    and isinstance(n.value, (ast.Subscript, ast.Name, ast.Attribute)):
+                if isinstance(n.value, ast.Subscript) and isinstance(n.value.slice, ast.Slice):
+                    continue  # a slice is a fresh list
+                al.add(n.targets[0].id)
+                if root(n.value):
+                    src.add(root(n.value))
+        self.alias_sources = src
+        return al
+
     def run(self):
+        self.alias_names = self.collect_aliases()
         self.assigned = self.collect_assigned()
         self.locals = list(self.assigned)
         self.iterating = []
         body = self.block(self.node.body)
+        if self.uses_oracle:
+            # the recorded draw stream is an extra, mutated, last parameter
+            self.params = self.params + ["$draws"]
+            self.mutated.add(len(self.params) - 1)
         text = (f"Definition src_{self.node.name} : fundef :=\n  mkfun {clist(cstr(p) for p in self.params)} "
                 f"{clist(cstr(x) for x in self.locals)}\n {body}.\n")
         return text, FunInfo(self.node.name, self.params, self.mutated)
+
+
+def slice_function(fn, sl):
+    """A statement slice of `fn` as a synthetic function.
+
+    sl = {"name": new name, "loop_target": the For loop (anywhere in fn) whose target is this name,
+          "from_assign": the slice starts at the first statement of that loop's body assigning this name,
+          "until_append_to": and ends before the statement `<this name>.append(...)`,
+          "params": parameter names of the synthetic function, "result": name returned at the end}"""
+    loops = [n for n in ast.walk(fn) if isinstance(n, ast.For) and isinstance(n.target, ast.Name)
+             and n.target.id == sl["loop_target"]]
+    if len(loops) != 1:
+        _bad(fn, f"{fn.name}: no unique `for {sl['loop_target']} in ...` loop")
+    body = loops[0].body
+    start = [i for i, st in enumerate(body) if isinstance(st, ast.Assign) and len(st.targets) == 1
+             and isinstance(st.targets[0], ast.Name) and st.targets[0].id == sl["from_assign"]]
+    stop = [i for i, st in enumerate(body) if isinstance(st, ast.Expr) and isinstance(st.value, ast.Call)
+            and isinstance(st.value.func, ast.Attribute) and st.value.func.attr == "append"
+            and isinstance(st.value.func.value, ast.Name) and st.value.func.value.id == sl["until_append_to"]]
+    if not start or len(stop) != 1 or stop[0] <= start[0]:
+        _bad(loops[0], f"{fn.name}: slice markers not found")
+    stmts = body[start[0]:stop[0]]
+    # whatever follows the slice inside the loop body must be the append alone
+    if stop[0] != len(body) - 1:
+        _bad(body[stop[0]], f"{fn.name}: statements after `{sl['until_append_to']}.append(...)` in the loop body")
+    ret = ast.Return(value=ast.Name(id=sl["result"], ctx=ast.Load(), lineno=stmts[-1].lineno), lineno=stmts[-1].lineno)
+    args = ast.arguments(posonlyargs=[], args=[ast.arg(arg=p) for p in sl["params"]], vararg=None, kwonlyargs=[],
+                         kw_defaults=[], kwarg=None, defaults=[])
+    return ast.FunctionDef(name=sl["name"], args=args, body=list(stmts) + [ret], decorator_list=[], lineno=fn.lineno)
 
 
 def translate(spec, repo):
@@ -388,11 +468,16 @@ def translate(spec, repo):
         out.append(f"Definition fields_{cname} : list string := {clist(cstr(x) for x in ci.fields)}.")
     out.append("")
     prev_ft = "ft_empty"
-    for k, (rel, fname) in enumerate(spec["functions"]):
+    for k, item in enumerate(spec["functions"]):
+        rel, fname = item[0], item[1]
         nodes = [n for n in tree(rel).body if isinstance(n, ast.FunctionDef) and n.name == fname]
         if len(nodes) != 1:
             raise Untranslatable(f"{rel}: function {fname} not found exactly once at module level")
-        text, fi = FunTranslator(nodes[0], classes, funs).run()
+        node = nodes[0]
+        if len(item) > 2:
+            node = slice_function(node, item[2])
+            fname = node.name
+        text, fi = FunTranslator(node, classes, funs).run()
         funs[fname] = fi
         out.append(f"(* {rel}: {fname}({', '.join(fi.params)}); mutates parameters {sorted(fi.mutated)} *)")
         out.append(text)
